@@ -6,9 +6,15 @@ DRIVERS = {
 }
 
 
+_built = {}
+
+
 def get(name):
-    src, kind, extra = DRIVERS[name]
-    return vlib.build_driver(name, src, kind, extra)
+    """Path of the driver binary, (re)built at most once per process."""
+    if name not in _built:
+        src, kind, extra = DRIVERS[name]
+        _built[name] = vlib.build_driver(name, src, kind, extra)
+    return _built[name]
 
 
 def build_all():
